@@ -487,12 +487,15 @@ def collect_real(t, with_asm=True):
     if with_asm:
         ser = t.serialize()
         asm = NetworkXASMFactory.create(NetworkXGraphImporter().import_graph_from_string(graph_string=ser))
-        az = ResourceAuthZAttributes()
-        az.collect_resource_attributes(source=asm)
-        out["authz_asm"] = _authz_reply(az)
-        lc = LogCollector()
-        lc.collect_resource_attributes(source=asm)
-        out["log_asm"] = _log_reply(lc)
+        try:
+            az = ResourceAuthZAttributes()
+            az.collect_resource_attributes(source=asm)
+            out["authz_asm"] = _authz_reply(az)
+            lc = LogCollector()
+            lc.collect_resource_attributes(source=asm)
+            out["log_asm"] = _log_reply(lc)
+        finally:
+            asm.delete_graph()      # the importer stored the ASM under a fresh GraphID
     return out
 
 
